@@ -169,7 +169,7 @@ def cross_variant_check(ctx, cases):
 def run(ctx):
     rng = ctx.rng
     thorough = ctx.tier == 'thorough'
-    label_sets = gl.LABEL_SETS[:3] if thorough else gl.LABEL_SETS[:2]
+    label_sets = gl.LABEL_SETS[:4] if thorough else [gl.LABEL_SETS[0], gl.LABEL_SETS[2]]
     # exhaustive: all permutations + single repeats of every <= 4-edge list on <= 4 positions (one label assignment per set)
     for k in (2, 3, 4):
         cases = []
